@@ -105,11 +105,38 @@ def gen_history(rng, n):
     return out, t + tail
 
 
+def gen_focus(rng, n):
+    """one hot entry that is refreshed again and again with changing TTLs (longer, shorter, infinite), outlives several of
+    its earlier deadlines, is stopped and re-added: chains of timers replacing each other"""
+    t, out = 0, []
+    a, k = rng.choice(ADDRS), rng.choice(KEYS)
+    for i in range(n):
+        t += rng.choice([0, 1, 1, 1, 2, 2, 3])
+        roll = rng.random()
+        if roll < 0.72:
+            inp = {"op": "ts_refresh", "a": a, "key": k, "ttl": rng.choice([1, 2, 2, 3, 3, 5, 5, FOREVER])}
+        elif roll < 0.82:
+            inp = {"op": "ts_stop", "a": a, "key": k}
+        elif roll < 0.88:
+            inp = {"op": rng.choice(["ts_stopaddr", "ts_stopall"]), "a": a}
+        else:
+            inp = {"op": "ts_refresh", "a": rng.choice(ADDRS), "key": rng.choice(KEYS), "ttl": rng.choice([1, 2, 3, FOREVER])}
+        inp["t"] = t
+        if rng.random() < 0.25:
+            inp["phase"] = "timer"
+        else:
+            inp["j"] = rng.choice([0, 0, 1])
+            if out and out[-1]["t"] == t and "j" in out[-1]:
+                inp["j"] = max(inp["j"], out[-1]["j"])
+        out.append(inp)
+    return out, t + 7
+
+
 def direct_traces(seed, count, length):
     traces = []
     for i in range(count):
         rng = random.Random("c09/%s/%s" % (seed, i))
-        sched, t_end = gen_history(rng, rng.randint(3, length))
+        sched, t_end = (gen_focus if i % 3 == 2 else gen_history)(rng, rng.randint(3, length))
         ev, missed = run_schedule(sched, t_end)
         traces.append({"cfg": mon_cfg(), "ev": monpass.add_adv(ev), "sched": sched, "t_end": t_end, "missed": missed})
     return traces
